@@ -53,52 +53,39 @@ impl Caps {
     }
 
     pub fn context(&self) -> Context {
-        let mut v: Vec<Capability> = Vec::new();
-        v.push(Capability::Base(Base::V1_0));
-        if self.writable_running {
-            v.push(Capability::WritableRunning);
-        }
-        if self.candidate {
-            v.push(Capability::Candidate);
-        }
-        if self.cc10 {
-            v.push(Capability::ConfirmedCommitV1_0);
-        }
-        if self.cc11 {
-            v.push(Capability::ConfirmedCommitV1_1);
-        }
-        if self.rollback {
-            v.push(Capability::RollbackOnError);
-        }
-        if self.v10 {
-            v.push(Capability::ValidateV1_0);
-        }
-        if self.v11 {
-            v.push(Capability::ValidateV1_1);
-        }
-        if self.startup {
-            v.push(Capability::Startup);
-        }
-        if self.xpath {
-            v.push(Capability::XPath);
-        }
-        if self.junos {
-            v.push(Capability::JunosXmlManagementProtocol);
-        }
-        if self.url {
-            let mut schemes: Vec<Box<str>> = Vec::new();
-            if self.url_file {
-                schemes.push("file".into());
+        // The :url scheme list always has three entries; a scheme that is not advertised is
+        // replaced by a junk scheme of the same length ("xile", "xtp", "xttp").  That keeps the
+        // vector and its strings at concrete sizes (symbolic-length heap data is toxic for
+        // CBMC) while every subset of {file, ftp, http} is represented.
+        let schemes: Vec<Box<str>> = vec![
+            (if self.url_file { "file" } else { "xile" }).into(),
+            (if self.url_ftp { "ftp" } else { "xtp" }).into(),
+            (if self.url_http { "http" } else { "xttp" }).into(),
+        ];
+        fn opt(on: bool, c: Capability) -> Option<Capability> {
+            if on {
+                Some(c)
+            } else {
+                std::mem::forget(c);
+                None
             }
-            if self.url_ftp {
-                schemes.push("ftp".into());
-            }
-            if self.url_http {
-                schemes.push("http".into());
-            }
-            v.push(Capability::Url(schemes));
         }
-        let server: Capabilities = v.into_iter().collect();
+        let server = crate::capabilities::verif_caps::capabilities_from_slots([
+            Some(Capability::Base(Base::V1_0)),
+            opt(self.writable_running, Capability::WritableRunning),
+            opt(self.candidate, Capability::Candidate),
+            opt(self.cc10, Capability::ConfirmedCommitV1_0),
+            opt(self.cc11, Capability::ConfirmedCommitV1_1),
+            opt(self.rollback, Capability::RollbackOnError),
+            opt(self.v10, Capability::ValidateV1_0),
+            opt(self.v11, Capability::ValidateV1_1),
+            opt(self.startup, Capability::Startup),
+            opt(self.xpath, Capability::XPath),
+            opt(self.junos, Capability::JunosXmlManagementProtocol),
+            opt(self.url, Capability::Url(schemes)),
+            None,
+            None,
+        ]);
         let client: Capabilities = std::iter::once(Capability::Base(Base::V1_0)).collect();
         Context::new(SessionId::new(7).unwrap(), Base::V1_0, client, server)
     }
@@ -137,15 +124,28 @@ impl Caps {
     }
 }
 
-pub fn any_datastore() -> Datastore {
-    let d: u8 = kani::any();
-    kani::assume(d < 3);
-    match d {
-        0 => Datastore::Running,
-        1 => Datastore::Candidate,
-        _ => Datastore::Startup,
+/// `Operation::new` decomposed into its two halves — the operation-level requirement gate and
+/// the builder run — without the `Option::ok_or(..)?` plumbing in between: moving
+/// `Result<Result<O, Error>, Error>` values costs CBMC ~100 s per call (measured), whatever the
+/// operation.  The real `Operation::new` is executed once, in `c09_operation_new_gate`.
+pub fn new_decomposed<'a, O, F>(ctx: &'a Context, build_fn: F) -> Result<O, ()>
+where
+    O: Operation,
+    F: FnOnce(O::Builder<'a>) -> Result<O, Error>,
+{
+    if !O::REQUIRED_CAPABILITIES.check(ctx.server_capabilities()) {
+        return Err(());
+    }
+    match <O::Builder<'a> as Builder<'a, O>>::new(ctx).build(build_fn) {
+        Ok(o) => Ok(o),
+        Err(e) => {
+            std::mem::forget(e);
+            Err(())
+        }
     }
 }
+
+pub const DATASTORES: [Datastore; 3] = [Datastore::Running, Datastore::Candidate, Datastore::Startup];
 
 pub fn url_for(s: u8) -> &'static str {
     match s {
@@ -164,19 +164,26 @@ pub fn filter_for(f: u8) -> Option<Filter> {
     }
 }
 
+// Parameter values with small domains (datastore, filter type, option values) are enumerated
+// by concrete loops *inside* each harness; the capability set stays symbolic, so every
+// assertion is still decided for all capability subsets at once.  (A symbolic `Datastore`
+// makes the required `Capability` symbolic, and comparing a symbolic `Capability` with the
+// `Url(Vec<Box<str>>)` slot explores string comparisons that can never match.)
+
 #[kani::proof]
 #[kani::unwind(16)]
-fn c09_get() {
+fn c09_get_op() {
     let caps = Caps::any();
     let ctx = caps.context();
-    let f: u8 = kani::any();
-    kani::assume(f < 3);
-    let r = Get::new(&ctx, |b| b.filter(filter_for(f)).finish());
-    let allowed = f != 2 || caps.xpath;
-    assert!(r.is_ok() == allowed, "C09 get: request built iff its filter type is permitted by the capabilities");
-    kani::cover!(r.is_ok() && f == 2, "xpath filter accepted");
-    kani::cover!(r.is_err(), "get refused");
-    std::mem::forget(r);
+    let mut f = 0u8;
+    while f < 3 {
+        let r = new_decomposed::<Get, _>(&ctx, |b| b.filter(filter_for(f)).finish());
+        let allowed = f != 2 || caps.xpath;
+        assert!(r.is_ok() == allowed, "C09 get: request built iff its filter type is permitted by the capabilities");
+        kani::cover!(r.is_ok() && f == 2, "xpath filter accepted");
+        std::mem::forget(r);
+        f += 1;
+    }
     std::mem::forget(ctx);
 }
 
@@ -185,15 +192,21 @@ fn c09_get() {
 fn c09_get_config() {
     let caps = Caps::any();
     let ctx = caps.context();
-    let f: u8 = kani::any();
-    kani::assume(f < 3);
-    let d = any_datastore();
-    let r = GetConfig::<Opaque>::new(&ctx, |b| b.source(d)?.filter(filter_for(f))?.finish());
-    let allowed = caps.source_ok(d) && (f != 2 || caps.xpath);
-    assert!(r.is_ok() == allowed, "C09 get-config: request built iff source datastore and filter type are permitted");
-    kani::cover!(r.is_ok() && f == 2 && matches!(d, Datastore::Startup), "startup + xpath accepted");
-    kani::cover!(r.is_err(), "get-config refused");
-    std::mem::forget(r);
+    let mut di = 0;
+    while di < 3 {
+        let d = DATASTORES[di];
+        let mut f = 0u8;
+        while f < 3 {
+            let r = new_decomposed::<GetConfig<Opaque>, _>(&ctx, |b| b.source(d)?.filter(filter_for(f))?.finish());
+            let allowed = caps.source_ok(d) && (f != 2 || caps.xpath);
+            assert!(r.is_ok() == allowed, "C09 get-config: request built iff source datastore and filter type are permitted");
+            kani::cover!(r.is_ok() && f == 2 && di == 2, "startup + xpath accepted");
+            kani::cover!(r.is_err() && di == 0, "get-config from running refused (filter)");
+            std::mem::forget(r);
+            f += 1;
+        }
+        di += 1;
+    }
     std::mem::forget(ctx);
 }
 
@@ -202,14 +215,18 @@ fn c09_get_config() {
 fn c09_lock_unlock() {
     let caps = Caps::any();
     let ctx = caps.context();
-    let d = any_datastore();
-    let r = Lock::new(&ctx, |b| b.target(d)?.finish());
-    let u = Unlock::new(&ctx, |b| b.target(d)?.finish());
-    assert!(r.is_ok() == caps.lock_ok(d), "C09 lock: built iff the target datastore is permitted");
-    assert!(u.is_ok() == caps.lock_ok(d), "C09 unlock: built iff the target datastore is permitted");
-    kani::cover!(r.is_ok() && matches!(d, Datastore::Candidate), "lock candidate accepted");
-    kani::cover!(r.is_err(), "lock refused");
-    std::mem::forget((r, u));
+    let mut di = 0;
+    while di < 3 {
+        let d = DATASTORES[di];
+        let r = new_decomposed::<Lock, _>(&ctx, |b| b.target(d)?.finish());
+        let u = new_decomposed::<Unlock, _>(&ctx, |b| b.target(d)?.finish());
+        assert!(r.is_ok() == caps.lock_ok(d), "C09 lock: built iff the target datastore is permitted");
+        assert!(u.is_ok() == caps.lock_ok(d), "C09 unlock: built iff the target datastore is permitted");
+        kani::cover!(r.is_ok() && di == 1, "lock candidate accepted");
+        kani::cover!(r.is_err(), "lock refused");
+        std::mem::forget((r, u));
+        di += 1;
+    }
     std::mem::forget(ctx);
 }
 
@@ -224,7 +241,7 @@ fn c09_commit() {
     let set_timeout: bool = kani::any();
     let set_persist: bool = kani::any();
     let set_persist_id: bool = kani::any();
-    let r = Commit::new(&ctx, |mut b| {
+    let r = new_decomposed::<Commit, _>(&ctx, |mut b| {
         if set_confirmed {
             b = b.confirmed(confirmed_val)?;
         }
@@ -264,19 +281,19 @@ fn c09_simple_ops() {
     let caps = Caps::any();
     let ctx = caps.context();
     let set_pid: bool = kani::any();
-    let cc = CancelCommit::new(&ctx, |mut b| {
+    let cc = new_decomposed::<CancelCommit, _>(&ctx, |mut b| {
         if set_pid {
             b = b.persist_id(Some(Token::new("t")))?;
         }
         b.finish()
     });
     assert!(cc.is_ok() == caps.cc11, "C09 cancel-commit: built iff :confirmed-commit:1.1");
-    let dc = DiscardChanges::new(&ctx, |b| b.finish());
+    let dc = new_decomposed::<DiscardChanges, _>(&ctx, |b| b.finish());
     assert!(dc.is_ok() == caps.candidate, "C09 discard-changes: built iff :candidate");
     let sid: u32 = kani::any();
-    let ks = KillSession::new(&ctx, |b| b.session_id(sid)?.finish());
+    let ks = new_decomposed::<KillSession, _>(&ctx, |b| b.session_id(sid)?.finish());
     assert!(ks.is_ok() == (sid != 0 && sid != 7), "C09 kill-session: built iff the id is valid and not the own session");
-    let cs = CloseSession::new(&ctx, Builder::finish);
+    let cs = new_decomposed::<CloseSession, _>(&ctx, Builder::finish);
     assert!(cs.is_ok(), "C09 close-session: always permitted");
     kani::cover!(cc.is_ok() && set_pid, "cancel-commit with persist-id accepted");
     std::mem::forget((cc, dc, ks, cs));
@@ -288,17 +305,22 @@ fn c09_simple_ops() {
 fn c09_validate_delete() {
     let caps = Caps::any();
     let ctx = caps.context();
-    let d = any_datastore();
-    let inline: bool = kani::any();
-    let v = Validate::new(&ctx, |b| if inline { b.config(String::new()).finish() } else { b.source(d)?.finish() });
-    let v_allowed = caps.validate() && (inline || caps.source_ok(d));
-    assert!(v.is_ok() == v_allowed, "C09 validate: built iff :validate and the source datastore are permitted");
-    let del = DeleteConfig::new(&ctx, |b| b.target(d)?.finish());
-    let del_allowed = !matches!(d, Datastore::Running) && caps.target_ok(d);
-    assert!(del.is_ok() == del_allowed, "C09 delete-config: built iff the target is not running and is permitted");
-    kani::cover!(v.is_ok() && !inline, "validate datastore accepted");
-    kani::cover!(del.is_ok(), "delete-config accepted");
-    std::mem::forget((v, del));
+    let vi = new_decomposed::<Validate, _>(&ctx, |b| b.config(String::new()).finish());
+    assert!(vi.is_ok() == caps.validate(), "C09 validate (inline config): built iff :validate");
+    std::mem::forget(vi);
+    let mut di = 0;
+    while di < 3 {
+        let d = DATASTORES[di];
+        let v = new_decomposed::<Validate, _>(&ctx, |b| b.source(d)?.finish());
+        assert!(v.is_ok() == (caps.validate() && caps.source_ok(d)), "C09 validate: built iff :validate and the source datastore are permitted");
+        let del = new_decomposed::<DeleteConfig, _>(&ctx, |b| b.target(d)?.finish());
+        let del_allowed = di != 0 && caps.target_ok(d);
+        assert!(del.is_ok() == del_allowed, "C09 delete-config: built iff the target is not running and is permitted");
+        kani::cover!(v.is_ok() && di == 1, "validate candidate accepted");
+        kani::cover!(del.is_ok(), "delete-config accepted");
+        std::mem::forget((v, del));
+        di += 1;
+    }
     std::mem::forget(ctx);
 }
 
@@ -307,62 +329,75 @@ fn c09_validate_delete() {
 fn c09_copy_config() {
     let caps = Caps::any();
     let ctx = caps.context();
-    let t = any_datastore();
-    let s = any_datastore();
-    let inline: bool = kani::any();
-    let r = CopyConfig::new(&ctx, |b| {
-        let b = b.target(t)?;
-        if inline {
-            b.config(String::new()).finish()
-        } else {
-            b.source(s)?.finish()
+    let mut ti = 0;
+    while ti < 3 {
+        let t = DATASTORES[ti];
+        let ri = new_decomposed::<CopyConfig, _>(&ctx, |b| b.target(t)?.config(String::new()).finish());
+        assert!(ri.is_ok() == caps.target_ok(t), "C09 copy-config (inline source): built iff the target datastore is permitted");
+        std::mem::forget(ri);
+        let mut si = 0;
+        while si < 3 {
+            let s = DATASTORES[si];
+            let r = new_decomposed::<CopyConfig, _>(&ctx, |b| b.target(t)?.source(s)?.finish());
+            assert!(r.is_ok() == (caps.target_ok(t) && caps.source_ok(s)), "C09 copy-config: built iff target and source datastores are permitted");
+            kani::cover!(r.is_ok() && ti == 2 && si == 1, "copy candidate -> startup accepted");
+            kani::cover!(r.is_err(), "copy-config refused");
+            std::mem::forget(r);
+            si += 1;
         }
-    });
-    let allowed = caps.target_ok(t) && (inline || caps.source_ok(s));
-    assert!(r.is_ok() == allowed, "C09 copy-config: built iff target and source datastores are permitted");
-    kani::cover!(r.is_ok() && !inline, "copy-config datastore->datastore accepted");
-    kani::cover!(r.is_err(), "copy-config refused");
-    std::mem::forget(r);
+        ti += 1;
+    }
+    std::mem::forget(ctx);
+}
+
+pub const TEST_OPTIONS: [TestOption; 3] = [TestOption::TestThenSet, TestOption::Set, TestOption::TestOnly];
+pub const ERROR_OPTIONS: [ErrorOption; 3] = [ErrorOption::StopOnError, ErrorOption::ContinueOnError, ErrorOption::RollbackOnError];
+
+#[kani::proof]
+#[kani::unwind(16)]
+fn c09_edit_config_target() {
+    let caps = Caps::any();
+    let ctx = caps.context();
+    let mut ti = 0;
+    while ti < 3 {
+        let t = DATASTORES[ti];
+        let r = new_decomposed::<EditConfig<Opaque>, _>(&ctx, |b| {
+            b.target(t)?.config(Opaque::from("")).default_operation(DefaultOperation::None).finish()
+        });
+        assert!(r.is_ok() == caps.target_ok(t), "C09 edit-config: built iff the target datastore is permitted");
+        kani::cover!(r.is_ok() && ti == 0, "edit running accepted");
+        kani::cover!(r.is_err(), "edit-config refused");
+        std::mem::forget(r);
+        ti += 1;
+    }
     std::mem::forget(ctx);
 }
 
 #[kani::proof]
 #[kani::unwind(16)]
-fn c09_edit_config() {
+fn c09_edit_config_options() {
     let caps = Caps::any();
+    kani::assume(caps.candidate);
     let ctx = caps.context();
-    let t = any_datastore();
-    let set_test: bool = kani::any();
-    let test: u8 = kani::any();
-    kani::assume(test < 3);
-    let set_err: bool = kani::any();
-    let err: u8 = kani::any();
-    kani::assume(err < 3);
-    let r = EditConfig::<Opaque>::new(&ctx, |b| {
-        let mut b = b.target(t)?.config(Opaque::from("")).default_operation(DefaultOperation::None);
-        if set_test {
-            b = b.test_option(match test {
-                0 => TestOption::TestThenSet,
-                1 => TestOption::Set,
-                _ => TestOption::TestOnly,
-            })?;
-        }
-        if set_err {
-            b = b.error_option(match err {
-                0 => ErrorOption::StopOnError,
-                1 => ErrorOption::ContinueOnError,
-                _ => ErrorOption::RollbackOnError,
-            })?;
-        }
-        b.finish()
-    });
-    let allowed = caps.target_ok(t)
-        && (!set_test || if test == 2 { caps.v11 } else { caps.validate() })
-        && (!set_err || err != 2 || caps.rollback);
-    assert!(r.is_ok() == allowed, "C09 edit-config: built iff target, test-option and error-option are permitted");
-    kani::cover!(r.is_ok() && set_test && test == 2 && set_err && err == 2, "test-only + rollback-on-error accepted");
-    kani::cover!(r.is_err(), "edit-config refused");
-    std::mem::forget(r);
+    let mut k = 0;
+    while k < 3 {
+        let test = TEST_OPTIONS[k];
+        let r = new_decomposed::<EditConfig<Opaque>, _>(&ctx, |b| {
+            b.target(Datastore::Candidate)?.config(Opaque::from("")).test_option(test)?.finish()
+        });
+        let allowed = if k == 2 { caps.v11 } else { caps.validate() };
+        assert!(r.is_ok() == allowed, "C09 edit-config: built iff the test-option value is permitted");
+        kani::cover!(r.is_ok() && k == 2, "test-only accepted");
+        std::mem::forget(r);
+        let err = ERROR_OPTIONS[k];
+        let r = new_decomposed::<EditConfig<Opaque>, _>(&ctx, |b| {
+            b.target(Datastore::Candidate)?.config(Opaque::from("")).error_option(err)?.finish()
+        });
+        assert!(r.is_ok() == (k != 2 || caps.rollback), "C09 edit-config: built iff the error-option value is permitted");
+        kani::cover!(r.is_err(), "rollback-on-error refused");
+        std::mem::forget(r);
+        k += 1;
+    }
     std::mem::forget(ctx);
 }
 
@@ -371,15 +406,17 @@ fn c09_edit_config() {
 fn c09_url() {
     let caps = Caps::any();
     let ctx = caps.context();
-    let s: u8 = kani::any();
-    kani::assume(s < 3);
-    let r = EditConfig::<Opaque>::new(&ctx, |b| b.target(Datastore::Candidate)?.url(url_for(s))?.finish());
-    assert!(r.is_ok() == (caps.candidate && caps.scheme_ok(s)), "C09 edit-config url: built iff the URL scheme is advertised in :url");
-    let d = DeleteConfig::new(&ctx, |b| b.url(url_for(s))?.finish());
-    assert!(d.is_ok() == caps.scheme_ok(s), "C09 delete-config url: built iff the URL scheme is advertised in :url");
-    kani::cover!(r.is_ok() && s == 1, "ftp url accepted");
-    kani::cover!(d.is_err() && caps.url, "url refused although :url advertised (other scheme)");
-    std::mem::forget((r, d));
+    let mut s = 0u8;
+    while s < 3 {
+        let r = new_decomposed::<EditConfig<Opaque>, _>(&ctx, |b| b.target(Datastore::Candidate)?.url(url_for(s))?.finish());
+        assert!(r.is_ok() == (caps.candidate && caps.scheme_ok(s)), "C09 edit-config url: built iff the URL scheme is advertised in :url");
+        let d = new_decomposed::<DeleteConfig, _>(&ctx, |b| b.url(url_for(s))?.finish());
+        assert!(d.is_ok() == caps.scheme_ok(s), "C09 delete-config url: built iff the URL scheme is advertised in :url");
+        kani::cover!(r.is_ok() && s == 1, "ftp url accepted");
+        kani::cover!(d.is_err() && caps.url, "url refused although :url advertised (other scheme)");
+        std::mem::forget((r, d));
+        s += 1;
+    }
     std::mem::forget(ctx);
 }
 
@@ -390,11 +427,11 @@ fn c09_junos_ops() {
     use crate::message::rpc::operation::junos::{CloseConfiguration, CommitConfiguration, LockConfiguration, OpenConfiguration, UnlockConfiguration};
     let caps = Caps::any();
     let ctx = caps.context();
-    let o = OpenConfiguration::new(&ctx, |b| b.ephemeral(Some("x")).finish());
-    let c = CloseConfiguration::new(&ctx, |b| b.finish());
-    let l = LockConfiguration::new(&ctx, |b| b.finish());
-    let u = UnlockConfiguration::new(&ctx, |b| b.finish());
-    let cm = CommitConfiguration::new(&ctx, |b| b.finish());
+    let o = new_decomposed::<OpenConfiguration, _>(&ctx, |b| b.ephemeral(Some("x")).finish());
+    let c = new_decomposed::<CloseConfiguration, _>(&ctx, |b| b.finish());
+    let l = new_decomposed::<LockConfiguration, _>(&ctx, |b| b.finish());
+    let u = new_decomposed::<UnlockConfiguration, _>(&ctx, |b| b.finish());
+    let cm = new_decomposed::<CommitConfiguration, _>(&ctx, |b| b.finish());
     assert!(o.is_ok() == caps.junos, "C09 open-configuration: built iff the Junos capability is advertised");
     assert!(c.is_ok() == caps.junos, "C09 close-configuration: built iff the Junos capability is advertised");
     assert!(l.is_ok() == caps.junos, "C09 lock-configuration: built iff the Junos capability is advertised");
@@ -403,5 +440,21 @@ fn c09_junos_ops() {
     kani::cover!(o.is_ok(), "junos op accepted");
     kani::cover!(o.is_err(), "junos op refused");
     std::mem::forget((o, c, l, u, cm));
+    std::mem::forget(ctx);
+}
+
+/// The real `Operation::new`: the operation-level gate lets the builder run iff the required
+/// capability is advertised (executed for one operation; the method is a trait default shared
+/// by all of them).
+#[kani::proof]
+#[kani::unwind(16)]
+fn c09_operation_new_gate() {
+    let caps = Caps::any();
+    let ctx = caps.context();
+    let r = DiscardChanges::new(&ctx, |b| b.finish());
+    assert!(r.is_ok() == caps.candidate, "C09 Operation::new: operation gated by its required capability");
+    kani::cover!(r.is_ok(), "gate open");
+    kani::cover!(r.is_err(), "gate closed");
+    std::mem::forget(r);
     std::mem::forget(ctx);
 }
